@@ -180,7 +180,7 @@ def session_case(rng, k, flavour=None):
     W, H = rng.choice([2, 3, 5, 8, 10]), rng.choice([2, 3, 4, 7])
     pm = (1 << (8 * bpp)) - 1
     fb = [[rng.randint(0, pm) for _ in range(W)] for _ in range(H)]
-    flavour = flavour or rng.choice(["soft", "soft", "mixed", "mixed", "partial", "switch", "fail"])
+    flavour = flavour or rng.choice(["soft", "soft", "mixed", "mixed", "partial", "switch", "fail", "hook", "hook"])
     L = ["case %d session %s" % (k, flavour), "screen %d %d %d %d %d %d %d %d %d" % ((W, H) + fmt),
          "fb " + " ".join("%x" % p for r in fb for p in r)]
     def small_cursor():
@@ -227,10 +227,18 @@ def session_case(rng, k, flavour=None):
             L.append("fur %d 1 0 0 %d %d" % (i, W, H))
         elif flavour == "fail" and len(alive) > 0 and rng.random() < 0.7:
             L.append("failwrite %d %d" % (i, rng.choice([0, 0, 3, 10])))
+            if rng.random() < 0.5:          # the cursor is replaced at the head of the update that is going to fail
+                cur = rand_cursor(rng, fmt, rng.choice([None, "alpha", "alphapm"]))
+                L += cur.lines() + ["hookcur %d" % i]
             L.append("fur %d 0 0 0 %d %d" % (i, W, H))
             alive.remove(i)
             if not alive:
                 break
+        elif flavour == "hook" and rng.random() < 0.6:
+            cur = rand_cursor(rng, fmt, rng.choice([None, None, "alpha", "alphapm"]))
+            L += cur.lines() + ["hookcur %d" % i]
+            L.append(rng.choice(["fur %d 0 0 0 %d %d" % (i, W, H), "fur %d 1 0 0 %d %d" % (i, W, H),
+                                 "fill 0 0 %d %d %x" % (W, H, rng.randint(0, pm))]))
     for i in alive:
         L.append("fur %d 1 0 0 %d %d" % (i, W, H))
     return L
@@ -294,6 +302,30 @@ def sweep_case(rng, k, W, H, cw, ch, xh, yh):
     return L
 
 
+DEFAULT_CUR = dict(w=8, h=7, xh=3, yh=3, fore=(0, 0, 0), back=(65535, 65535, 65535),
+                   src=[0, 66, 36, 24, 36, 66, 0], mask=[231, 231, 126, 60, 126, 231, 231])
+
+
+def defcur_case(rng, k):
+    """several screens of different pixel formats in ONE process, all with the library's built-in cursor
+    (a static object: its derived rich form survives from screen to screen); own process per case"""
+    L = ["case %d defcur" % k]
+    fmts = [rng.choice(FORMATS) for _ in range(rng.choice([2, 2, 3]))]
+    if rng.random() < 0.5:
+        fmts.sort(key=lambda f: f[0])          # growing pixel size: the cached buffer is too short
+    for fmt in fmts:
+        W, H = rng.choice([9, 12, 16]), rng.choice([8, 9, 12])
+        pm = (1 << (8 * fmt[0])) - 1
+        fb = [[rng.randint(0, pm) for _ in range(W)] for _ in range(H)]
+        L += ["screen %d %d %d %d %d %d %d %d %d" % ((W, H) + fmt), "fb " + " ".join("%x" % p for r in fb for p in r), "defcur"]
+        if fmt[0] != 3 and rng.random() < 0.4:
+            L += ["client 0 rich", "fur 0 0 0 0 %d %d" % (W, H)]
+        else:
+            for _ in range(2):
+                L += ["pos %d %d" % (rng.randint(0, W - 1), rng.randint(0, H - 1)), "show", "hide"]
+    return L
+
+
 def gen_cases(ctx):
     rng = ctx.rng
     cases, k = [], 0
@@ -320,6 +352,9 @@ def gen_cases(ctx):
             for yh in sorted(set([0, ch - 1, ch])):
                 cases.append(sweep_case(rng, k, W, H, cw, ch, xh, yh))
                 k += 1
+    for _ in range(12 if ctx.quick() else 120):
+        cases.append(defcur_case(rng, k))
+        k += 1
     for _ in range(nd // 10):
         cases.append(mask_case(rng, k))
         k += 1
@@ -333,7 +368,7 @@ class CaseState:
     pass
 
 
-def oracle_case(script, impl):
+def oracle_case(script, impl, crash=None):
     """evaluate the property predicate on the implementation's observations of one case.
     returns list of (message, features)"""
     errs = []
@@ -347,13 +382,19 @@ def oracle_case(script, impl):
     st.shown = False
     st.sx = st.sy = 0
     st.cl = {}
+    st.hook = None          # (client, cursor) the displayHook will install at the head of that client's next update
+    st.hook_fired = None    # client whose update ran the hook in the op being looked at
+    st.prev_cur = None
     it = iter(impl)
     for op in script[1:]:
         p = op.split()
         try:
             line = next(it)
         except StopIteration:
-            errs.append(("implementation produced no observation for '%s' (crash?)" % op, {"kind": "crash", "op": p[0]}))
+            feat = {"kind": "crash", "op": p[0]}
+            if getattr(st, "defcur_screens", 0) >= 2:
+                feat["defcur"] = True
+            errs.append(("implementation produced no observation for '%s' (crash%s)" % (op, ": " + crash[1][:200] if crash else "?"), feat))
             return errs
         if p[0] == "screen":
             st.W, st.H = int(p[1]), int(p[2])
@@ -374,6 +415,16 @@ def oracle_case(script, impl):
             st.pend.rich = None if p[1:] == ["-"] else [int(t, 16) for t in p[1:]]
         elif p[0] == "alpha":
             st.pend.alpha = None if p[1] == "-" else list(bytes.fromhex(p[1]))
+        elif p[0] == "defcur":
+            d = DEFAULT_CUR
+            st.cur = Cur(d["w"], d["h"], d["xh"], d["yh"], False, d["fore"], d["back"], list(d["src"]), list(d["mask"]), None, None)
+            st.defcur_screens = getattr(st, "defcur_screens", 0) + 1
+            want = "defcur %d %d %d %d %d %d %d %d %d %d %s %s" % ((d["w"], d["h"], d["xh"], d["yh"]) + d["fore"] + d["back"] +
+                                                                   (bytes(d["src"]).hex(), bytes(d["mask"]).hex()))
+            if line != want:
+                errs.append(("the library's built-in cursor is not the documented one: " + line[:120], {"kind": "defcur", "what": "fields"}))
+            for c in st.cl.values():
+                c["must_shape"] = c["shape"]
         elif p[0] == "setcur":
             st.cur = st.pend
             for c in st.cl.values():
@@ -419,6 +470,8 @@ def oracle_case(script, impl):
         elif p[0] == "failwrite":
             if int(p[1]) in st.cl:
                 st.cl[int(p[1])]["failing"] = True
+        elif p[0] == "hookcur":
+            st.hook = (int(p[1]), st.pend)
         elif p[0] == "makemask":
             w, h = int(p[1]), int(p[2])
             src = [] if p[3] == "-" else list(bytes.fromhex(p[3]))
@@ -447,8 +500,9 @@ def oracle_case(script, impl):
                 errs.append(("rfbShowCursor: painted framebuffer is not the cursor laid over the framebuffer "
                              "(%d pixels differ, first at %s%s)" % (len(bad), bad[0],
                               "; all of them cursor pixels missing in the last column/row" if edge else ""),
-                             {"kind": "overlay", "where": "last_col_row" if edge else "other",
-                              "cursor": "alpha" if st.cur and st.cur.alpha is not None else "mask"}))
+                             dict({"kind": "overlay", "where": "last_col_row" if edge else "other",
+                                   "cursor": "alpha" if st.cur and st.cur.alpha is not None else "mask"},
+                                  **({"defcur": True} if getattr(st, "defcur_screens", 0) >= 2 else {}))))
         elif p[0] == "hide":
             got = parse_dump(line.split(" ", 1)[1] if " " in line else "")
             if got != st.fb:
@@ -456,6 +510,9 @@ def oracle_case(script, impl):
                              {"kind": "restore", "cursor": "alpha" if st.cur and st.cur.alpha is not None else "mask"}))
         if st.cl and " app=" in line:
             errs += session_obs(st, op, line)
+        if getattr(st, "defcur_screens", 0) >= 2:       # a second screen of the process uses the built-in cursor
+            for (_, f) in errs:
+                f["defcur"] = True
     return errs
 
 
@@ -524,6 +581,15 @@ def check_shape(st, c, shp):
 def session_obs(st, op, line):
     errs = []
     app, obs = parse_session_line(line)
+    st.hook_fired = None
+    if st.hook is not None:
+        hk, hcur = st.hook
+        o = obs.get(hk)
+        if o is not None and hk in st.cl and not st.cl[hk]["dead"] and (o["dead"] or o.get("sent") == "1"):
+            # the update of client hk ran: the application replaced the cursor at its head
+            st.prev_cur, st.cur, st.hook, st.hook_fired = st.cur, hcur, None, hk
+            for c in st.cl.values():
+                c["must_shape"] = c["shape"]
     if app != st.fb:
         errs.append(("application framebuffer damaged after '%s' (update bracket did not restore it)" % op.split()[0],
                      {"kind": "restore", "cursor": "session"}))
@@ -537,6 +603,21 @@ def session_obs(st, op, line):
         if c["dead"] or o.get("sent") != "1":
             continue
         kindc = "alpha" if st.cur and st.cur.alpha is not None else "mask"
+        other_in_hook_round = st.hook_fired is not None and k != st.hook_fired
+        if other_in_hook_round:
+            # updated in the round in which another client's update replaced the cursor: before or after it
+            if o.get("shape", "-") != "-" and check_shape(st, c, o["shape"]) is None:
+                c["must_shape"] = False
+            if c["fullonly"]:
+                got = parse_dump(o.get("pic", ""))
+                wants = [st.fb] if c["shape"] else [overlay(st.fb, st.W, st.H, st.fmt, cu, st.sx, st.sy) for cu in (st.cur, st.prev_cur)]
+                if got not in wants and not all(
+                        (x == st.W - 1 or y == st.H - 1) for w_ in wants[:1] for y in range(st.H) for x in range(st.W) if got[y][x] != w_[y][x]):
+                    errs.append(("client picture after an update in the round of a cursor replacement shows neither the old nor "
+                                 "the new cursor", {"kind": "picture", "where": "other", "cursor": kindc, "client": "hookround",
+                                                    "switched": c["switched"]}))
+            c["must_pos"] = False
+            continue
         if o.get("shape", "-") != "-":
             if not c["shape"]:
                 errs.append(("cursor shape sent to a client without cursor-shape support", {"kind": "shape", "what": "unsolicited"}))
@@ -589,17 +670,46 @@ def build(ctx):
     return cexe, mexe, proof_ok
 
 
+def isolated(c):
+    return c[0].split()[2:3] == ["defcur"]
+
+
 def run_impl(cexe, cases):
-    script = "\n".join("\n".join(c) for c in cases) + "\n"
-    return vlib.run_driver(cexe, script, timeout=3000)
+    """defcur cases run in a process of their own (the built-in cursor is process-wide state, and the tree may
+    die on them); their output is spliced in at the end"""
+    normal = [c for c in cases if not isolated(c)]
+    script = "\n".join("\n".join(c) for c in normal) + "\n"
+    rc, out, err = vlib.run_driver(cexe, script, timeout=3000) if normal else (0, "", "")
+    for c in cases:
+        if isolated(c):
+            r, o, e = vlib.run_driver(cexe, "\n".join(c) + "\n", timeout=120)
+            out += o
+            if r != 0:
+                m = __import__("re").search(r"(SUMMARY: [^\n]*)", e)
+                run_impl.crashes[c[0]] = (r, m.group(1) if m else e[-300:])
+    return rc, out, err
+
+
+run_impl.crashes = {}
+
+
+def run_model_cases(mexe, cases, variant):
+    normal = [c for c in cases if not isolated(c)]
+    _, mo, me = vlib.run_driver([mexe] + ([variant] if variant else []), "\n".join("\n".join(c) for c in normal) + "\n",
+                                timeout=3000, unlimited_stack=True) if normal else (0, "", "")
+    for c in cases:
+        if isolated(c):
+            _, o, _ = vlib.run_driver([mexe] + ([variant] if variant else []), "\n".join(c) + "\n", timeout=300, unlimited_stack=True)
+            mo += o
+    return 0, mo, me
 
 
 def run_model(mexe, cases, variant=""):
     """variant: comma-separated proposed repairs the model mirrors ("clip", "empty", "switch"); "" = code as it is"""
-    script = "\n".join("\n".join(c) for c in cases) + "\n"
-    return vlib.run_driver([mexe] + ([variant] if variant else []), script, timeout=3000, unlimited_stack=True)
+    return run_model_cases(mexe, cases, variant)
 
 
+PROPOSED = ["cache"]       # notes/fix_C15_4.diff (F15d), not in the tree
 REPAIRS = ["clip", "empty", "switch"]      # /repo commits 1a3b6d2, 0775c26, 2b32386 (were notes/fix_C15_1.._3.diff)
 
 
@@ -611,16 +721,19 @@ def case_kind(c):
 def check(ctx):
     cexe, mexe, proof_ok = build(ctx)
     cases = gen_cases(ctx)
+    run_impl.crashes = {}
     rc1, cout, cerr = run_impl(cexe, cases)
-    cc = vlib.split_cases(cout)
+    crashes = dict(run_impl.crashes)
+    by_head = {h: ls for (h, ls) in vlib.split_cases(cout)}
 
     def mism(variant):
         _, mo, _ = run_model(mexe, cases, variant)
-        mc = vlib.split_cases(mo)
+        mby = {h: ls for (h, ls) in vlib.split_cases(mo)}
         out = []
-        for idx in range(len(cases)):
-            il = cc[idx][1] if idx < len(cc) else []
-            ml = mc[idx][1] if idx < len(mc) else []
+        for idx, c in enumerate(cases):
+            il, ml = by_head.get(c[0], []), mby.get(c[0], [])
+            if c[0] in crashes and len(il) < len(ml) and il == ml[:len(il)] and ml[len(il)].endswith(" ERR"):
+                continue        # the library died (sanitizer) exactly where the model has its explicit error value
             d = vlib.first_diff(il, ml)
             if d is not None:
                 out.append((idx, d))
@@ -630,6 +743,12 @@ def check(ctx):
     tree = list(REPAIRS)
     mm0 = mism(",".join(tree))
     mismatches, chosen = mm0, tree
+    if mismatches:
+        cand = mism(",".join(tree + PROPOSED))      # has the proposed repair fix_C15_4 been applied?
+        if len(cand) < len(mismatches):
+            mismatches, chosen = cand, tree + PROPOSED
+            if not cand:
+                mm0 = cand
     if mismatches:
         for r in REPAIRS:
             trial = [x for x in chosen if x != r]
@@ -641,7 +760,7 @@ def check(ctx):
     hist, distinct = {}, set()
     oracle_fail = []
     for idx, c in enumerate(cases):
-        il = cc[idx][1] if idx < len(cc) else []
+        il = by_head.get(c[0], [])
         hist[case_kind(c)] = hist.get(case_kind(c), 0) + 1
         prev = None
         for op, l in zip(c[1:], il):
@@ -651,10 +770,10 @@ def check(ctx):
                 prev = l if not l.startswith("fb ") else prev
             if op.startswith("fb "):
                 prev = None
-        for e in oracle_case(c, il):
+        for e in oracle_case(c, il, crashes.get(c[0])):
             oracle_fail.append((idx, e))
     if rc1 != 0 and not any(e[1][1].get("kind") == "crash" for e in oracle_fail):
-        oracle_fail.append((len(cc) - 1 if cc else 0,
+        oracle_fail.append((0,
                             ("implementation driver exited with %d: %s" % (rc1, cerr[-800:]), {"kind": "crash", "op": "?"})))
     ctx.coverage.update(
         evaluations=nops, distinct_nontrivial=len(distinct),
@@ -675,7 +794,7 @@ def check(ctx):
 
     seen = set()
     for idx, (msg, feat) in oracle_fail:
-        key = (feat.get("kind"), feat.get("where"), feat.get("what"), feat.get("switched"))
+        key = (feat.get("kind"), feat.get("where"), feat.get("what"), feat.get("switched"), feat.get("defcur"))
         if key in seen or len(seen) >= 6:
             continue
         seen.add(key)
@@ -689,8 +808,10 @@ def check(ctx):
                 return False
             return any(f.get("kind") == want.get("kind") and f.get("where") == want.get("where") and
                        f.get("what") == want.get("what") and f.get("switched") == want.get("switched") for (_, f) in es)
-        small = shrink(idx, pred) if feat.get("kind") != "crash" else cases[idx]
+        small = shrink(idx, pred) if feat.get("kind") != "crash" and not feat.get("defcur") else cases[idx]
         r, co, ce = run_impl(cexe, [small])
+        if run_impl.crashes.get(small[0]):
+            ce += "\ncrash: %s" % (run_impl.crashes[small[0]],)
         _, mo, _ = run_model(mexe, [small], variant)
         ctx.violation("cursor property violated on the implementation: " + msg, feat,
                       "script:\n" + "\n".join(small) + "\n\nimplementation output:\n" + co + ce[-1500:] +
